@@ -157,7 +157,7 @@ Val oneExchange(bool tls, const QByteArray &request, int ending, int delayMs, co
     std::thread t(rawClient, server.serverPort(), tls, request, ending, pieces, surplus, &res, &done);
     QElapsedTimer timer; timer.start();
     qint64 last = 0, maxGap = 0;      // the longest time the server's thread spent without returning to its event loop
-    while (!done.load() && timer.elapsed() < 9000) {
+    while (!done.load() && timer.elapsed() < 15000) {
         QCoreApplication::processEvents(QEventLoop::AllEvents, 5);
         qint64 now = timer.elapsed();
         maxGap = qMax(maxGap, now - last);
